@@ -171,6 +171,8 @@ def u2_names(sc):
         return {1: "samedecl" + s, 2: "samedecl" + s, "m1": "_moda", "m2": "_modb"}
     if v == "suffix":
         return {1: "public_tail" + s, 2: "_tail" + s, "m1": "_moda", "m2": "_modb"}
+    if v == "suffixalias":
+        return {1: "tail" + s, 2: "big_tail" + s, "m1": "moda", "m2": "modb"}
     if v == "samemodule":
         return {1: "declone" + s, 2: "decltwo" + s, "m1": "modsame" + s, "m2": "modsame" + s}
     return {1: "declone" + s, 2: "decltwo" + s, "m1": "moda", "m2": "modb"}
@@ -225,7 +227,10 @@ def u2_observe(sc, stubs: Stubs, rootname: str, idx: dict | None = None) -> dict
                     if m.pyname in ("m_d1", "m_d2"):
                         tgt = int(m.pyname[-1])
             if tgt:
-                occs[tgt].append({"home": [seg.replace(mark, "") for seg in file_home(f, rootname, sid)], "name": d.pyname.replace(mark, ""),
+                shown = d.pyname.replace(mark, "")
+                if sc.get("variant") == "suffixalias":      # the specification calls the two declarations declone / decltwo
+                    shown = {"tail": "declone", "big_tail": "decltwo"}.get(shown, shown)
+                occs[tgt].append({"home": [seg.replace(mark, "") for seg in file_home(f, rootname, sid)], "name": shown,
                                   "members": [m.pyname for m in d.members if not m.pyname.startswith("_")]})
     jp = {1: "absent", 2: "absent"}
     if idx is not None:
